@@ -28,6 +28,9 @@ func runC11(w *W) {
 		qset[y] = true
 	}
 	sweepDays(w, "C11", func(d *Day, prev *Day) {
+		if d.M == 1 && d.D == 1 {
+			c11MonthObjects(w, d.Y)
+		}
 		// thorough tier: all 14 moments with all route pairs on every day of the quick set's years; every other year gets
 		// the quick tier's moment rotation (all 14 x all pairs on all 3.65 M days is ~28 CPU-hours, measured)
 		reduced := !w.Thorough() || !qset[d.Y]
@@ -271,4 +274,57 @@ func jqs(j *calendar.JieQi) string {
 		return "nil"
 	}
 	return j.GetName() + "@" + j.GetSolar().ToYmdHms()
+}
+
+// c11MonthObjects: a lunar month object answers the same whichever route produced it - built by NewLunarMonthFromYm,
+// taken from the 15-entry list of a year (which also holds months of the neighbouring years) or reached by Next(n).
+func c11MonthObjects(w *W, y int) {
+	reform := func(y int) bool { return (y >= 7 && y <= 24) || (y >= 235 && y <= 241) }
+	if reform(y) {
+		return
+	}
+	cmp := func(route string, got *calendar.LunarMonth) {
+		if got == nil || got.GetYear() < 1 || got.GetYear() > 9998 {
+			return
+		}
+		var direct *calendar.LunarMonth
+		try(func() { direct = calendar.NewLunarMonthFromYm(got.GetYear(), got.GetMonth()) })
+		if direct == nil || direct.GetFirstJulianDay() != got.GetFirstJulianDay() {
+			return // C06 judges labels and first days
+		}
+		w.R.Evals++
+		w.R.Traces++
+		a, b := digestObject(got, nil), digestObject(direct, nil)
+		if a == b {
+			return
+		}
+		key := fmt.Sprintf("%d/%d", got.GetYear(), got.GetMonth())
+		fp := "C11:month-object:" + route + ":" + key
+		// class: the object comes from the table of the following year, which starts at month 11 of this month's year and
+		// numbers positions from there, while the month's own table counts the leap month that precedes it
+		am := got.GetMonth()
+		if am < 0 {
+			am = -am
+		}
+		if lp := calendar.NewLunarYear(got.GetYear()).GetLeapMonth(); am >= 11 && lp > 0 && (lp < am || (lp == am && got.GetMonth() < 0)) && direct.GetIndex() == got.GetIndex()+1 {
+			fp = "C11:month-object:position-in-year-of-months-11-12-after-a-leap-month-differs-between-own-table-and-next-years-table"
+		}
+		w.Viol(fp, fmt.Sprintf("lunar month %s obtained as %s and built by NewLunarMonthFromYm answer differently: %s", key, route, firstDiff(a, b)), y)
+	}
+	var ly *calendar.LunarYear
+	try(func() { ly = calendar.NewLunarYear(y) })
+	if ly == nil {
+		return
+	}
+	for e := ly.GetMonths().Front(); e != nil; e = e.Next() {
+		cmp(fmt.Sprintf("an item of NewLunarYear(%d).GetMonths()", y), e.Value.(*calendar.LunarMonth))
+	}
+	for e := ly.GetMonthsInYear().Front(); e != nil; e = e.Next() {
+		m := e.Value.(*calendar.LunarMonth)
+		for _, n := range []int{-1, 1, -13, 13, -2, 12} {
+			var nx *calendar.LunarMonth
+			try(func() { nx = m.Next(n) })
+			cmp(fmt.Sprintf("%d/%d.Next(%d)", m.GetYear(), m.GetMonth(), n), nx)
+		}
+	}
 }
